@@ -319,7 +319,7 @@ def flood_session(rng, bt, with_reset):
 def gen_cases(rng, tier):
     bt = G.by_type()
     sessions = []
-    nsmall, nbound, nflood = (400, 2, 3) if tier == "quick" else (30000, 16, 48)
+    nsmall, nbound, nflood = (400, 2, 3) if tier == "quick" else (120000, 48, 160)
     for i in range(nflood):
         sessions.append(flood_session(rng, bt, with_reset=(i % 3 == 2)))
     for _ in range(nbound):
